@@ -14,7 +14,8 @@ import json
 
 import networkx as nx
 
-from common import Atom, Case, Run, call_impl, prepare, enc_graph, sx, parse_sx, dec_label, build
+from common import (Atom, Case, Run, call_impl, prepare, enc_graph, sx, parse_sx, dec_label, build,
+                    input_variant, variant_extras_intact)
 
 PROOFS = ["FGVerif.Proofs.C12", "FGVerif.Proofs.GraphWF", "FGVerif.Proofs.C12Forest"]
 
@@ -30,6 +31,20 @@ def impl_addh(h):
     """`h` is a private copy (already encoded for the request); the function works in place and returns it"""
     from fgutils.utils import add_implicit_hydrogens
     return add_implicit_hydrogens(h)
+
+
+# add_implicit_hydrogens works IN PLACE: only forms that stay modifiable (not frozen, not a view)
+VARIANT_KINDS = ("extra_attrs", "numpy")
+
+
+def impl_addh_form(h, form, nodes, edges):
+    """completion of a graph handed over in another FORM (common.input_variant): with extra attributes the nodes
+    and bonds of the variant as it was made (`nodes`, `edges`) must still carry them untouched afterwards
+    (VariantDamaged otherwise; hydrogens added by an earlier completion never had them)"""
+    out = impl_addh(h)
+    if form == "variant=extra_attrs":
+        variant_extras_intact(out, nodes, edges)
+    return out
 
 
 def star(center, k_single, extra=None, ids=None, nbr="R"):
@@ -154,14 +169,30 @@ def _h(name):
     return zlib.crc32(str(name).encode())
 
 
-def make_cases(name, g, tags):
-    """the first completion and the second one (idempotence on the implementation)"""
+def make_cases(name, g, tags, rng=None, variant_kinds=None):
+    """the first completion and the second one (idempotence on the implementation).
+    `variant_kinds` (with `rng`): the graph is handed over in another FORM (extra attributes / numpy ids, map
+    numbers and half orders); all completions of this scenario run on that object, the wire form is the plain one's"""
     cases = []
+    form = None
+    addh = impl_addh
+    if variant_kinds:
+        v, form = input_variant(g, rng, variant_kinds)
+        if sx(enc_graph(v)) != sx(enc_graph(g)):
+            raise AssertionError("input_variant changed the wire form (harness defect)")
+        g = v
+        tags = list(tags) + ["input_form", form]
+        name = "%s [%s]" % (name, form)
+
+        nodes0, edges0 = list(v.nodes), list(v.edges)
+
+        def addh(h):
+            return impl_addh_form(h, form, nodes0, edges0)
     # the graph object that is encoded is the one that is completed in place (copy() would re-add the
     # edges in g.edges order and change the adjacency order); a copy is kept for the statistics only
     req = [Atom("C12"), Atom("addh"), enc_graph(g)]
     g_in = g.copy()
-    out = call_impl(impl_addh, g)
+    out = call_impl(addh, g)
     g = g_in
     ok = isinstance(out, nx.Graph)
     over, added = stats(g, out)
@@ -174,7 +205,7 @@ def make_cases(name, g, tags):
     if ok:
         enc_out = enc_graph(out)
         req2 = [Atom("C12"), Atom("idem"), enc_out]
-        out2 = call_impl(impl_addh, out)
+        out2 = call_impl(addh, out)
         cases.append(Case(req2, enc_graph(out2) if isinstance(out2, nx.Graph) else out2,
                           meta={"name": name + " (second completion)"},
                           nontrivial_key=key_of(sx(req2)) if added > 0 else None, tags=["second-completion"]))
@@ -198,8 +229,12 @@ def make_cases(name, g, tags):
                 if heavy and _h(name) % 5 != 0:
                     g3.add_edge(heavy[0], new, bond=1)
                 edit = "added-carbon"
+            if form:
+                # what the harness's own edit removed is no longer "there before": its id may be handed out again
+                nodes0[:] = [n for n in nodes0 if n in g3]
+                edges0[:] = [e for e in edges0 if g3.has_edge(e[0], e[1])]
             req3 = [Atom("C12"), Atom("addh"), enc_graph(g3)]
-            out3 = call_impl(impl_addh, g3)
+            out3 = call_impl(addh, g3)
             cases.append(Case(req3, enc_graph(out3) if isinstance(out3, nx.Graph) else out3,
                               meta={"name": name + " (completion after an in-place edit: %s)" % edit},
                               nontrivial_key=key_of(sx(req3)), tags=["completion-after-in-place-edit", edit]))
@@ -231,6 +266,9 @@ def run(tier, seed):
     cases = []
     for name, g in corpus_graphs() + corpus_files("C12", 2):
         cases += make_cases(name, g, ["corpus"])
+    for kind in VARIANT_KINDS:      # every corpus graph also in every other (modifiable) input form
+        for name, g in corpus_graphs() + corpus_files("C12", 2):
+            cases += make_cases(name, g, ["corpus"], rng=rng, variant_kinds=(kind,))
     for name, g in cell_grid():
         cases += make_cases(name, g, ["cell-grid"])
     # cells on shifted ids (fresh ids must not depend on 0..n-1)
@@ -248,7 +286,11 @@ def run(tier, seed):
         r.notes["escalated"] = "proof obligations did not build: sample widened, cell grid evaluated"
     for k in range(n_random):
         style, g = gen_graph(rng, big=(k % 8 == 0))
-        cases += make_cases("random#%d" % k, g, ["ids=" + style, "random"])
+        if rng.random() < 0.12:
+            # the FORM of the input: irrelevant extra attributes (must survive the in-place completion) / numpy ids and orders
+            cases += make_cases("random#%d" % k, g, ["ids=" + style, "random"], rng=rng, variant_kinds=VARIANT_KINDS)
+        else:
+            cases += make_cases("random#%d" % k, g, ["ids=" + style, "random"])
         if len(cases) > 4000:
             tally(r, r.evaluate(cases))
             cases = []
@@ -264,7 +306,9 @@ def run(tier, seed):
         level="proof",
         rule="corpus (F9 witnesses, parsed molecules) + cell grid (every tabulated element x 0..4 single bonds x {none,1.5,2,3}) + random graphs "
              "(1-30 atoms; elements incl. R, H, Fe, Na, Ge, Li, lower-case aromatic; ids contiguous/offset/sparse/shuffled/negative; random node and edge "
-             "insertion order; orders 1,1.5,2,3; over-valent atoms), each followed by a second completion; non-trivial = hydrogens were added or an "
+             "insertion order; orders 1,1.5,2,3; over-valent atoms), each followed by a second completion; 12% of the random graphs and every corpus "
+             "graph also in another FORM (extra node/edge attributes that must survive the in-place completion; numpy.int64 ids / numpy.float64 orders; "
+             "tags variant=*); non-trivial = hydrogens were added or an "
              "over-valent atom is present, distinct by request line",
         checker_cmd="cd lean && lake build FGVerif.Proofs.C12 && lake env lean FGVerif/Audit/C12.lean",
         explanation="theorems in lean/FGVerif/Proofs/C12.lean about Model/C12.lean (spec_holds, only_adds_hydrogens, fresh_ids, count, idempotent, "
@@ -327,7 +371,18 @@ def replay(path):
     req = parse_sx(line)
     op, g = req[1], dec_graph(req[2])
     enc_in = enc_graph(g)
-    out = call_impl(impl_addh, g)
+    import re
+    m = re.search(r"\[(variant=(extra_attrs|numpy))\]", str((d.get("meta") or {}).get("name", "")))
+    if m:
+        # the recorded case ran on another FORM of the graph: re-apply it (extras of the nodes / bonds of the request
+        # graph are checked; hydrogens an earlier completion of the scenario added are treated as original here)
+        import random
+        g, form = input_variant(g, random.Random(d.get("seed", 0)), (m.group(2),))
+        print("REPLAY property=C12 re-applied the recorded input form: %s" % form)
+        nodes0 = [n for n, s_ in g.nodes(data="symbol") if "note" in g.nodes[n]]
+        out = call_impl(impl_addh_form, g, form, nodes0, list(g.edges))
+    else:
+        out = call_impl(impl_addh, g)
     case = Case([Atom("C12"), Atom(op), enc_in], enc_graph(out) if isinstance(out, nx.Graph) else out, meta={"replay": path})
     o = r.evaluate([case])[0]
     r.driver.close()
